@@ -186,6 +186,10 @@ class Ctx:
                     self.known.append(signature)
                     print(f"KNOWN-FINDING: property={self.pid} {f.get('what', what)}", flush=True)
                 return
+        if not found_input and signature.startswith("correspondence/") and self.has_concrete():
+            # the search already produced a concrete failing input for this breakage: one VIOLATION line suffices
+            self.log("(correspondence also disagrees:", what[:160], ")")
+            return
         os.makedirs(REPLAYS, exist_ok=True)
         body = {"property": self.pid, "signature": signature, "what": what,
                 "found_failing_input": bool(found_input), "tier": self.tier, "seed": self.seed,
